@@ -316,6 +316,7 @@ struct HelpEnv {
     on: bool,
     who_control: usize,
     who_active_addr: usize,
+    who_space_offer: usize,
     budget: u8,
     gen_addr: usize,
     next_gen: usize,
@@ -326,7 +327,7 @@ struct HelpEnv {
     /// the reader's space_offer at the instant my replacement was installed
     their_space_at_install: usize,
 }
-static mut HENV: HelpEnv = HelpEnv { on: false, who_control: 0, who_active_addr: 0, budget: 0, gen_addr: 0, next_gen: 0, pending_addr: 0, third_envelope: 0, storage_addr: 0, installs: 0, their_space_at_install: 0 };
+static mut HENV: HelpEnv = HelpEnv { on: false, who_control: 0, who_active_addr: 0, who_space_offer: 0, budget: 0, gen_addr: 0, next_gen: 0, pending_addr: 0, third_envelope: 0, storage_addr: 0, installs: 0, their_space_at_install: 0 };
 static mut HENV_WHO: Option<&'static Slots> = None;
 
 fn henv_before(ev: &crate::verif::Event) {
@@ -334,7 +335,7 @@ fn henv_before(ev: &crate::verif::Event) {
     if !e.on {
         return;
     }
-    if ev.addr != e.who_control && ev.addr != e.who_active_addr {
+    if ev.addr != e.who_control && ev.addr != e.who_active_addr && ev.addr != e.who_space_offer {
         return;
     }
     // a whole reader transaction boundary (finish, publish address, publish generation) fits
@@ -432,6 +433,7 @@ pub(crate) fn rg_help() {
             on: true,
             who_control: &who.control as *const _ as usize,
             who_active_addr: &who.active_addr as *const _ as usize,
+            who_space_offer: &who.space_offer as *const _ as usize,
             budget: HELP_ENV_BUDGET,
             gen_addr: if same { storage_addr } else { A2 },
             next_gen: g0,
